@@ -71,8 +71,14 @@ func (g *Gen) libModel(f *ssa.Function, c *ssa.CallCommon, st *State) ([]Val, bo
 		return one(Val{T: fmt.Sprintf("(+ (* %s 1000000000) %s)", s, ns), S: sInt, G: rt()})
 	case "(time.Time).Truncate":
 		t, d := g.argVal(c, 0, st).T, g.asInt(g.argVal(c, 1, st))
-		// d <= 0 returns t unchanged; otherwise t - (t - Z0) mod d   (absolute time since year 1)
-		return one(Val{T: fmt.Sprintf("(ite (<= %[2]s 0) %[1]s (- %[1]s (mod (- %[1]s %[3]s) %[2]s)))", t, d, timeZeroNS), S: sInt, G: rt()})
+		// d <= 0 returns t unchanged; otherwise the largest multiple of d (counted from year 1) that is <= t:
+		// r <= t < r + d and aligned(r - Z0, d)
+		g.W.usedLib[name] = true
+		g.declareFun("aligned", "(Int Int) Bool")
+		r := g.fresh("trunc")
+		g.declare(r, "Int")
+		g.assume("true", fmt.Sprintf("(ite (<= %[2]s 0) (= %[4]s %[1]s) (and (<= %[4]s %[1]s) (< %[1]s (+ %[4]s %[2]s)) (aligned (- %[4]s %[3]s) %[2]s)))", t, d, timeZeroNS, r))
+		return []Val{{T: r, S: sInt, G: rt()}}, true
 	case "time.Since":
 		n := g.fresh("now")
 		g.declare(n, "Int")
@@ -114,7 +120,14 @@ func (g *Gen) libModel(f *ssa.Function, c *ssa.CallCommon, st *State) ([]Val, bo
 	case "errors.New", "fmt.Errorf", "github.com/openGemini/openGemini/lib/errno.NewError", "github.com/pkg/errors.New", "github.com/pkg/errors.Errorf", "github.com/pkg/errors.Wrap", "github.com/pkg/errors.WithStack":
 		g.W.usedLib[name] = true
 		n := g.fresh("err")
-		g.declare(n, "Iface")
+		rs := g.sortOf(rt())
+		g.declare(n, rs.SMT())
+		if rs.K == KPtr {
+			g.assume("true", fmt.Sprintf("(is-pobj %s)", n))
+			rv := Val{T: n, S: sPtr, G: rt()}
+			g.assume(st.reach, g.wfFact(rv, st))
+			return []Val{rv}, true
+		}
 		g.assume("true", fmt.Sprintf("(not (= %s (mk-iface 0 0)))", n))
 		return []Val{{T: n, S: sIface, G: rt()}}, true
 	case "fmt.Sprintf", "fmt.Sprint", "strconv.Itoa", "strconv.FormatInt", "strconv.FormatUint":
